@@ -67,7 +67,8 @@ def snap(x, depth=0):
         raw = np.asarray(data.raw() if hasattr(data, "raw") else data)
         return ("lazy", raw.tobytes(), tuple(sorted(x._set_values)))
     if hasattr(x, "__dataclass_fields__"):
-        return (tname,) + tuple((f, snap(getattr(x, f), depth + 1)) for f in x.__dataclass_fields__)
+        extra = tuple(sorted(k for k in getattr(x, "__dict__", {}) if not k.startswith("_") and k not in x.__dataclass_fields__))        # attributes a call added to the table
+        return (tname,) + tuple((f, snap(getattr(x, f), depth + 1)) for f in x.__dataclass_fields__) + ((("extra-attributes", extra),) if extra else ())
     if tname in ("Genome", "Geometry", "StreamedGeometry", "GenomeContext", "GlobalOffset"):
         # objects that hold the genome: the contig sizes and offsets they carry (arrays the genomic methods look sizes up in)
         gc = x if tname in ("GenomeContext", "GlobalOffset") else getattr(x, "_genome_context", None)
@@ -292,6 +293,11 @@ def run(ctx):
         "table.sort_by": (lambda r: (sorted_iv(r),), lambda a: a.sort_by("stop")),
         "bnp.replace": (lambda r: (sorted_iv(r),), lambda a: bnp.replace(a, start=np.asarray(a.start) + 1)),
         "table.add_fields": (lambda r: (sorted_iv(r),), lambda a: a.add_fields({"extra": [1] * len(a)}, field_type_map={"extra": int})),
+        "table.add_fields(twice, other names)": (lambda r: (sorted_iv(r),), lambda a: [sorted(f.name for f in __import__("dataclasses").fields(a.add_fields({"name": ["x"] * len(a)}, field_type_map={"name": str}))),
+                                                                                              sorted(f.name for f in __import__("dataclasses").fields(a.add_fields({"score": [1] * len(a)}, field_type_map={"score": int})))]),
+        "Interval.from_dict(dict with further keys)": (lambda r: ({"chromosome": ["chr1", "chr2"], "start": [1, 2], "stop": [5, 6], "name": ["a", "b"], "score": [1, 2], "strand": ["+", "-"]},), lambda d: tables.rows_of(Interval.from_dict(d))),
+        "Bed6.from_dict(after Interval.from_dict of the same dict)": (lambda r: ({"chromosome": ["chr1", "chr2"], "start": [1, 2], "stop": [5, 6], "name": ["a", "b"], "score": [1, 2], "strand": ["+", "-"]},),
+                                                                      lambda d: [call("x", Interval.from_dict, (d,), None)[0], tables.rows_of(Bed6.from_dict(d))]),
         "table.tolist": (lambda r: (sorted_iv(r),), lambda a: [(str(e.chromosome), int(e.start), int(e.stop)) for e in a.tolist()]),
         "table.todict": (lambda r: (sorted_iv(r),), lambda a: {k: list(v) for k, v in a.todict().items()}),
         "table.topandas": (lambda r: (sorted_iv(r),), lambda a: a.topandas().to_dict("list")),
@@ -338,6 +344,59 @@ def run(ctx):
             for a in frozen:
                 a.flags.writeable = True
         ctx.count("barrier_runs")
+
+    # ---- a selection of a lazily read BAM table handed to the writer: its fields read afterwards are those of an identical selection that was not written -----
+    def lazy_bam_case(case):
+        from bnpmon.models import bam as R2
+        from bnpmon.workloads.C16 import gen_record
+        r = random.Random(case["seed"])
+        refs = [("chr1", 10 ** 6), ("chr2", 10 ** 6)]
+        n = r.randint(3, 10)
+        recs = [gen_record(r, 2) for _ in range(n)]
+        if r.random() < 0.5:
+            base = recs[0]          # equal-size records (short-read layout)
+            recs = [dict(base, name="".join(r.choice("abcxyz0123") for _ in base["name"]), pos=r.randint(0, 10 ** 5), seq="".join(r.choice("ACGT") for _ in base["seq"]),
+                         qual=None if base["qual"] is None else [r.randint(0, 60) for _ in base["seq"]]) for _ in range(n)]
+        data, _ = R2.encode_bam(refs, recs, [])
+        path = ctx.path("c20.bam")
+        with open(path, "wb") as f:
+            f.write(data)
+        t = bnp.open(path).read()
+        kind = r.choice(["perm", "step", "mask", "rev"])
+        if kind == "perm":
+            idx = np.array(r.sample(range(n), r.randint(2, n)))
+        elif kind == "step":
+            idx = slice(1, None, 2)
+        elif kind == "mask":
+            idx = np.array([i % 2 == 1 or r.random() < 0.3 for i in range(n)])
+        else:
+            idx = slice(None, None, -1)
+        written_sel, twin = t[idx], t[idx]
+        FIELDS = ["name", "cigar_op", "cigar_length", "sequence", "quality", "position", "flag", "mapq"]
+        first = r.choice(FIELDS[:5])
+        wit = {"seed": case["seed"], "n": n, "selection": kind, "index": str(idx)[:80], "field_read_before_the_write": first}
+        try:
+            for obj in (written_sel, twin):
+                getattr(obj, first)
+            with bnp.open(ctx.path("c20o.bam"), "w") as f:
+                f.write(written_sel)
+            bad = []
+            for fld in FIELDS:
+                a_, b_ = result_repr(tables.column(written_sel, fld)), result_repr(tables.column(twin, fld))
+                if a_ != b_:
+                    bad.append((fld, a_[:80], b_[:80]))
+        except Exception as e:
+            if not originates_in_library(e):
+                raise
+            et, site = exc_site(e)
+            ctx.check("write-leaves-argument", False, "write(lazy BAM selection)/fields-raise-after-the-write:%s@%s" % (et, site), "reading the fields of a written BAM selection raised %s: %s" % (et, str(e)[:100]), wit, None)
+            return
+        ctx.check("write-leaves-argument", not bad, "write(lazy BAM selection)/fields-differ-after-the-write", "after writing table[%s] its fields %r read differently from an identical selection that was not written: %r" % (kind, [b[0] for b in bad], bad[:2]),
+                  dict(wit, differing=[list(b) for b in bad[:4]]), (data, kind, str(idx), first))
+        ctx.count("lazy_bam_selections_written")
+
+    for i in range(ctx.share(ctx.pick(240, 3000))):
+        ctx.run_case(lazy_bam_case, {"seed": rng.randrange(2 ** 40)})
 
     # ---- lazily read chunks of every format ----------------------------------------------------------
     LAZY_FORMATS = [("bed6", None), ("bed12", None), ("bdg", None), ("narrowpeak", None), ("fastq", None), ("fasta2", None), ("vcf", None), ("vcf_gt", "VCFMatrixBuffer"), ("vcf_gt", "VCFBuffer2"),
